@@ -664,7 +664,7 @@ enum Family {
     Clean,
     Update,          // updates, no two open transactions writing the same row     (updateKeepsInserterXmin)
     ConcurrentWrite, // two open transactions write the same row                   (writeSetNeverRecorded, deleteMarkSingleSlot)
-    PartialFail,     // statement failing after its first row inside a session     (stmtNotAtomicInSession)
+    PartialFail,     // statement failing after its first row inside a session     (clean since fix 64fa97f)
     Reinsert,        // deleted unique key inserted again                          (region: index entry replaced)
 }
 
@@ -1003,9 +1003,8 @@ fn finish(line: String, fam: Family, extra: &[&str]) -> Case {
     } else if tags.iter().any(|t| t == "update") {
         kf.push("kf:update");
     }
-    if tags.iter().any(|t| t == "failed_stmt_partial") {
-        kf.push("kf:failed_stmt_partial");
-    }
+    // `failed_stmt_partial` (a statement failing after its first row inside a session) is clean since fix 64fa97f:
+    // the statement takes back what it wrote
     if tags.iter().any(|t| t == "reinsert_deleted_unique_key") {
         kf.push("kf:reinsert_deleted_unique_key");
     }
@@ -1590,7 +1589,6 @@ fn gen_c07(rng: &mut Rng, out: &mut Vec<Case>) {
     c.tags.retain(|t| t != "clean" && !t.starts_with("kf:") && t != "kf2" && t != "nt");
     match kf {
         Some(k) => c.tags.push(k.to_string()),
-        None if extra.contains(&"failed_stmt_partial") => c.tags.push("kf:failed_stmt_partial".to_string()),
         // autocommit updates of a non-key column with no transaction open behave as specified
         None => c.tags.push("clean".to_string()),
     }
